@@ -18,12 +18,13 @@ type ClientServerStream struct {
 	ctx context.Context
 
 	header  metadata.MD
-	headerM sync.Mutex    // guards closing of headerC, and trailer
+	headerM sync.Mutex    // guards closing of headerC, trailer and sendClosed
 	headerC chan struct{} // closed once calls to clientStream.Header should return
 
 	serverSend chan any
 	clientSend chan any
 	closeSend  sync.Once // CloseSend may be called more than once
+	sendClosed bool      // CloseSend has been called: a later SendMsg is refused
 	trailer    metadata.MD
 	closed     context.CancelFunc
 	closeErr   error
@@ -118,7 +119,12 @@ func (c *clientStream) Trailer() metadata.MD {
 }
 
 func (c *clientStream) CloseSend() error {
-	c.closeSend.Do(func() { close(c.clientSend) })
+	c.closeSend.Do(func() {
+		c.headerM.Lock()
+		c.sendClosed = true
+		c.headerM.Unlock()
+		close(c.clientSend)
+	})
 	return nil
 }
 
@@ -127,10 +133,23 @@ func (c *clientStream) Context() context.Context {
 }
 
 func (c *clientStream) SendMsg(m any) error {
+	c.headerM.Lock()
+	sendClosed := c.sendClosed
+	c.headerM.Unlock()
+	if sendClosed {
+		// as in gRPC (a send on the closed channel would panic)
+		return status.Error(codes.Internal, "SendMsg called after CloseSend")
+	}
 	m = cloneForReceiver(m)
 	select {
 	case <-c.ctx.Done():
-		return c.doneErr()
+		select {
+		case <-c.closedC:
+			// the call is over: as in gRPC a send only says so, the status is what RecvMsg reports
+			return io.EOF
+		default:
+			return c.ctx.Err()
+		}
 	case c.clientSend <- m:
 		return nil
 	}
